@@ -303,16 +303,20 @@ def _run_hyp(mod, sub, res, findings, seedval, n, tier, t0, budget_s):
     import hypothesis
     from hypothesis import given
 
-    state = {'last': None, 'fail_json': None, 'fail_t': None}
+    state = {'last': None, 'fail_t': None, 'known': {}, 'last_fail': None}
 
     def body(case):
         if budget_s and state['fail_t'] is None and time.time() - t0 > budget_s:
             res.stopped_early = True
             return
         if state['fail_t'] is not None and time.time() - state['fail_t'] > SHRINK_BUDGET_S[tier]:
-            # shrink budget used up: only the best known failing case is re-executed
-            if canon(case) != state['fail_json']:
+            # shrink budget used up: cases already known to fail keep failing (without being re-executed),
+            # every other candidate is declined, so Hypothesis settles on the smallest failure found so far
+            k = state['known'].get(canon(case))
+            if k is None:
                 return
+            state['last'] = case
+            raise Violation(*k)
         state['last'] = case
         try:
             info = sub.run(case)
@@ -326,7 +330,9 @@ def _run_hyp(mod, sub, res, findings, seedval, n, tier, t0, budget_s):
                 return
             if state['fail_t'] is None:
                 state['fail_t'] = time.time()
-            state['fail_json'] = canon(case)
+            if len(state['known']) < 5000:
+                state['known'][canon(case)] = (v.clause, v.detail)
+            state['last_fail'] = (v.clause, v.detail, case)
             raise
         if state['fail_t'] is None:
             res.record(case, info)
@@ -336,6 +342,18 @@ def _run_hyp(mod, sub, res, findings, seedval, n, tier, t0, budget_s):
         test()
     except Violation as v:
         res.violation = (v.clause, v.detail, state['last'])
+    except BaseException as e:  # noqa: BLE001
+        # Hypothesis reports e.g. FlakyFailure when a replay behaves differently.  A violation that was observed is
+        # still reported, provided it reproduces once more outside Hypothesis; otherwise it is a harness error.
+        if state['last_fail'] is None or isinstance(e, KeyboardInterrupt):
+            raise
+        clause, detail, case = state['last_fail']
+        try:
+            sub.run(case)
+        except Violation as v2:
+            res.violation = (v2.clause, v2.detail, case)
+        else:
+            raise
 
 
 def _run_machine(mod, sub, res, findings, seedval, n, tier, t0, budget_s):
